@@ -1,12 +1,12 @@
 (* C04 - Writing a structure and reading it back preserves everything the format carries; repeated
    conversion never drifts, grows or fails.  Statements only; proofs live in Base/ (field codecs) and Proofs/.
    The models read widths, precisions, literals and slices from Gen/C04_FmtSpecs.v, regenerated from
-   parsers/p_*.py on every run.  xyz, rawxyz, pdffit, discus are proved at record level here;
-   pdb, xcfg and cif are covered at correspondence level only (see design.d/C04.md). *)
+   parsers/p_*.py on every run.  Whole-file round trip: xyz, rawxyz, pdffit, discus, pdb, xcfg; cif: record-level
+   `_partial` theorems (see design.d/C04.md). *)
 From Coq Require Import List Bool Arith NArith ZArith String.
 From DS Require Import Base.C04_Text Base.C04_Decimal Model.C04_Fmt Gen.C04_FmtSpecs.
 From DS Require Import Model.C04_Xyz Model.C04_Rawxyz Model.C04_Pdffit Model.C04_Discus Model.C04_Cols Model.C04_Pdb Model.C04_Xcfg Model.C04_Cif.
-From DS Require Import Proofs.C04_Fmt Proofs.C04_GenIdem Proofs.C04_NoDrift Proofs.C04_Xyz Proofs.C04_Rawxyz Proofs.C04_Pdffit Proofs.C04_Discus Proofs.C04_Cols Proofs.C04_Pdb Proofs.C04_Xcfg Proofs.C04_Cif
+From DS Require Import Proofs.C04_Fmt Proofs.C04_GenIdem Proofs.C04_NoDrift Proofs.C04_Xyz Proofs.C04_Rawxyz Proofs.C04_Pdffit Proofs.C04_Discus Proofs.C04_Cols Proofs.C04_Pdb Proofs.C04_Xcfg Proofs.C04_XcfgFile Proofs.C04_Cif
                        Proofs.C04_Examples.
 Import ListNotations.
 
@@ -145,16 +145,24 @@ Print Assumptions C04_no_drift_pdb.
 Theorem C04_pdb_hypotheses_satisfiable : repr_pdb ex_bstru = true.
 Proof. exact repr_pdb_example. Qed.
 
-(* xcfg - PARTIAL: the entry record (reduced position and auxiliary columns, "%.8g" joined by one blank) reads back as the
-   values at 8 significant digits; `" ".join` / split keep blank-free tokens.  The whole-file statement is not proved: the
-   executable file-level model (header, choice of auxiliary columns, mass/element/entry lines, reader) is tied to the
-   implementation by correspondence only. *)
+(* xcfg, whole file: for every structure view in the representable range for which the writer model produces a text
+   (i.e. box size, H0 and entry values inside the non-exponent range of "%.8g"), reading that text yields canon:
+   number of particles, A and H0 at 8 significant digits, the auxiliary column names in order, and per atom the capitalised
+   element and the entry fields (reduced position and auxiliary columns) at 8 significant digits.  Covers the header loop
+   (including the mass line that ends it), the `^auxiliary\[(\d+)\] =` records with the reconstruction of the column names,
+   the entry_count check and the mass / element / entry dispatch of the data block.  The model's file-level writer/reader are
+   tied to p_xcfg.py by correspondence; no-drift for xcfg is NOT proved (the re-derivation of A and of the reduced positions
+   from the re-read structure is outside the model; the finder covers it). *)
 Theorem C04_split_join_blank : forall toks, Forall (fun t => no_ws t = true /\ t <> []) toks -> split_ws (join [sp] toks) = toks.
 Proof. exact split_join_sp. Qed.
-Theorem C04_roundtrip_xcfg_entry_partial : forall cols a l, entry_line cols a = Some l ->
+Theorem C04_roundtrip_xcfg_entry : forall cols a l, entry_line cols a = Some l ->
   map_opt parse_float (split_ws l) = Some (let '(x, y, z) := c_pos a in map g8 ([x; y; z] ++ map (fun c => snd c a) cols)).
 Proof. exact roundtrip_xcfg_entry_partial. Qed.
-Print Assumptions C04_roundtrip_xcfg_entry_partial.
+Theorem C04_roundtrip_xcfg : forall S t, repr_xcfg S = true -> write_xcfg S = Some t -> read_xcfg t = Some (canon_xcfg S).
+Proof. exact roundtrip_xcfg. Qed.
+Print Assumptions C04_roundtrip_xcfg.
+Theorem C04_xcfg_hypotheses_satisfiable : repr_xcfg ex_cstru = true /\ exists t, write_xcfg ex_cstru = Some t.
+Proof. exact repr_xcfg_example. Qed.
 
 (* cif - PARTIAL: each record of the CIF writer reads back through the setters of the CIF reader (cell record; atom_site row:
    label, capitalised element, position at 6 decimals reduced into the cell, Uiso at 6 decimals, adp type, occupancy at 4;
